@@ -189,6 +189,8 @@ def arith(F, res, cg, reach):
         key = s.key()
         w = where(f, s.line)
         by = discharge.try_all(f, du, cfg, s)
+        if by is None:
+            by = discharge.try_in_callers(F, f, s)
         if by is None and key in rows:
             by = "D-TABLE: " + rows[key]
         if by:
